@@ -36,6 +36,11 @@ type TypedefSpec struct {
 	Doc         string
 
 	root TypeSpec
+
+	// linkScope is the scope the typedef is being linked in. It is set only
+	// while Link is in progress: a typedef reached again through a reference
+	// cycle still names its target, and RootTypeSpec resolves that name here.
+	linkScope Scope
 }
 
 // compileTypedef compiles the given Typedef AST into a TypedefSpec.
@@ -75,7 +80,9 @@ func (t *TypedefSpec) Link(scope Scope) (TypeSpec, error) {
 	}
 
 	var err error
+	t.linkScope = scope
 	t.Target, err = t.Target.Link(scope)
+	t.linkScope = nil
 	if err == nil {
 		t.root = RootTypeSpec(t.Target)
 	}
